@@ -304,6 +304,14 @@ pub fn cfgs(tier: &str) -> Vec<(DnsCfg, Bounds)> {
         false,
         d,
     );
+    add(
+        "two names that differ only in letter case, resolved one after the other by one client",
+        vec![("Mail.Example".into(), [10, 9, 8, 1]), ("mail.example".into(), [10, 9, 8, 2]), ("MAIL.EXAMPLE".into(), [10, 9, 8, 3])],
+        vec![vec![0, 1, 2, 1], vec![1, 0]],
+        false,
+        false,
+        1,
+    );
     add("25-byte name (query longer than 80 bytes)", vec![(n25.clone(), [7, 7, 7, 7])], vec![vec![0, 0]], false, false, 1);
     if !q {
         add(
